@@ -8,7 +8,7 @@ from vlib.core import exc_site, fmt_exc
 PROPERTY = "C13"
 LEVEL = "exploration"
 CLAIM = {
-    "text": "Exploration by runtime monitoring: for seeded random data lengths (FFT-good and not, 24..512), template kinds {boxcar, gaussian, lorentzian}, bank sizes and spacings, every response value MatchedFilter.convs[k,t] is recomputed as an explicit float64 inner product of the library's own standardised data (periodic over their own length) with the zero-mean unit-norm template whose reference bin is placed at t; snr/peak_bin/best_temp must be the maximum and its location; results must be invariant under x -> a*x+b (a>0); a noiseless boxcar of every bank width at start in {0,1,n/3,n-w} must be recovered at its start bin with its width. Added: baseline offsets up to 1e4 with centring on and off, offset invariance for every centring option under a measured float32 error model (gate 10x the unchanged tree's worst case), 3001..8192-bin series against a float64 FFT oracle, and bank completeness (one template per width) also right after a construction the library had to refuse. Rounds 7-8 added: responses, z-scores, S/N and peak bin re-read after MatchedFilter.plot().",
+    "text": "Exploration by runtime monitoring: for seeded random data lengths (FFT-good and not, 24..512), template kinds {boxcar, gaussian, lorentzian}, bank sizes and spacings, every response value MatchedFilter.convs[k,t] is recomputed as an explicit float64 inner product of the library's own standardised data (periodic over their own length) with the zero-mean unit-norm template whose reference bin is placed at t; snr/peak_bin/best_temp must be the maximum and its location; results must be invariant under x -> a*x+b (a>0); a noiseless boxcar of every bank width at start in {0,1,n/3,n-w} must be recovered at its start bin with its width. Added: baseline offsets up to 1e4 with centring on and off, offset invariance for every centring option under a measured float32 error model (gate 10x the unchanged tree's worst case), 3001..8192-bin series against a float64 FFT oracle, and bank completeness (one template per width) also right after a construction the library had to refuse. Rounds 7-8 added: responses, z-scores, S/N and peak bin re-read after MatchedFilter.plot(). Round 9 added: series of 2^17+ bins for all three template kinds.",
     "design_ref": "DESIGN.md section 3 (C13)",
     "note": "Trusted: numpy float64 dot products. Data and templates are periodic over the data length n (templates normalised over n); z-scores are taken from the library (their correctness is C15's subject).",
     "technique": "runtime monitoring: explicit inner-product oracle for every (template, bin) + argmax consistency + metamorphic invariance checks",
